@@ -95,7 +95,14 @@ MRecv == /\ pcm = "closed" /\ pcm' = "returned"
          /\ results' = IF results # <<>> THEN Tail(results) ELSE results
          /\ last' = <<"m", 0, "returned">>
          /\ UNCHANGED <<ctx, done, resultsClosed, closingClosed, wg, pcw, pcwt>>
-MainStep == MJoin \/ MClose \/ MRecv
+\* Mine may notice a context that is already cancelled before it starts anything and return the cancellation error at
+\* once (no goroutine is started, nothing to join): a legitimate variant of the protocol, modelled as one step
+MEarly == /\ pcm = "waiting" /\ ctx = "cancelled" /\ pcwt = "init" /\ \A i \in Workers : pcw[i] = "init"
+          /\ pcm' = "returned" /\ ret' = -1
+          /\ pcw' = [i \in Workers |-> "finished"] /\ pcwt' = "finished" /\ wg' = 0
+          /\ last' = <<"m", 0, "returned">>
+          /\ UNCHANGED <<ctx, done, results, resultsClosed, closingClosed>>
+MainStep == MJoin \/ MClose \/ MRecv \/ MEarly
 
 Next == Cancel \/ (\E i \in Workers : WorkerStep(i)) \/ WatcherStep \/ MainStep
 
